@@ -35,6 +35,17 @@ TARGETS = {
         "src": "provider/src/string_interner.rs",
         "args": ["--types", "StringInterner", "--alias", "InternedStringId=usize", "--only", "preallocate,get"],
     },
+    # provider/src/write.rs: every method of `impl Context` (which state transition and which bytes each ABI call makes) (C03, C02)
+    "WriteCtxGen": {
+        "src": "provider/src/write.rs",
+        "args": ["--types", "", "--struct", "Context{write_state:State;write_parent_state_stack:Vec<State>;output_bytes:Vec<u8>;string_interner:StringInterner}",
+                 "--also", "{repo}/provider/src/write/state.rs:State,ObjectState,ArrayState", "--also", "{repo}/provider/src/string_interner.rs:StringInterner",
+                 "--alias", "InternedStringId=usize", "--extern-enum", "WriteResult=WR_",
+                 "--append-fn", "encode::write_bool=write_bool", "--append-fn", "encode::write_nil=write_nil", "--append-fn", "encode::write_sint=write_sint",
+                 "--append-fn", "encode::write_f64=write_f64", "--append-fn", "encode::write_str_len=write_str_len",
+                 "--append-fn", "encode::write_map_len=write_map_len", "--append-fn", "encode::write_array_len=write_array_len",
+                 "--ptr-buffer", "output_bytes", "--import", "Gen.CodesGen", "--import", "Gen.StateGen", "--import", "Gen.InternGen", "--import", "Msgpack.Rmp"],
+    },
 }
 
 
@@ -54,7 +65,7 @@ def binary():
 def generate(repo, name, coq_dir=None):
     t = TARGETS[name]
     out = os.path.join(coq_dir or os.path.join(VERIF, "coq"), "theories", "Gen", name + ".v")
-    p = subprocess.run([binary(), "--src", os.path.join(repo, t["src"]), "--out", out] + t["args"],
+    p = subprocess.run([binary(), "--src", os.path.join(repo, t["src"]), "--out", out] + [a.replace("{repo}", repo) for a in t["args"]],
                        stdout=subprocess.PIPE, stderr=subprocess.STDOUT, text=True, timeout=120)
     if p.returncode != 0:
         raise TranslatorError(p.stdout.strip()[-800:] or "T8: rs2v failed")
